@@ -159,7 +159,7 @@ def main():
         'hooks': {
             'guard': 'BCTPY_VERIF',
             'enable': 'none needed: contracts are woven into in-memory copies of the real functions (engine/weave.py) and the VC generator reads /repo sources directly; /repo carries no hook code',
-            'baseline_off_cmd': BASE['cmd'].replace('--junitxml=<file>', '--junitxml=/tmp/bctpy_baseline.junit.xml'),
+            'baseline_off_cmd': BASE['cmd'].replace('--junitxml=<file>', '--junitxml=/verif/evidence_scratch/baseline.junit.xml'),
             'source_commits': [],
             'add_only': True,
         },
